@@ -51,9 +51,11 @@ def tasks(tier):
         t.append((W, "auto_inherits", dict(kind=k)))
     # hand-coded CI kinds
     hc = [("cisd", 3, 1, 1, True, False, {}), ("cisd_faster", 3, 1, 1, True, False, {}), ("ucisd", 3, 2, 1, False, True, {}),
-          ("ucisd", 3, 1, 1, False, True, {"moB": "identity"})]
+          ("ucisd", 3, 1, 1, False, True, {"moB": "identity"}),
+          # nocc >= 2 and nvirt >= 2: index transpositions inside the occupied / virtual blocks are invisible below these shapes
+          ("cisd", 3, 2, 2, True, False, {}), ("cisd_faster", 3, 2, 2, True, False, {}), ("cisd", 4, 2, 2, True, False, {}), ("cisd_faster", 4, 2, 2, True, False, {})]
     if tier == "thorough":
-        hc += [("cisd", 4, 2, 2, True, False, {}), ("cisd_faster", 4, 2, 2, True, False, {}), ("ucisd", 3, 2, 0, False, True, {}), ("ucisd", 3, 1, 1, False, True, {})]
+        hc += [("ucisd", 3, 2, 0, False, True, {}), ("ucisd", 3, 1, 1, False, True, {})]
     for k, n, a, b, r, sdp, extra in hc:
         t.append((W, "obs_fock", dict(kind=k, norb=n, nu=a, nd=b, what="energy", restricted=r, spin_dep=sdp, **extra)))
     t.append((W, "obs_ru", dict(kind="rhf", norb=3, nocc=1, what="energy")))
